@@ -259,7 +259,7 @@ API_METRICS = [
     ("yule", {}, "binary"), ("jensen_shannon", {}, "positive"), ("symmetric_kl", {}, "positive"), ("wasserstein_1d", {}, "positive"),
     ("seuclidean", {"sigma": "ones"}, "gauss"), ("wminkowski", {"w": "ones", "p": 2}, "gauss"), ("mahalanobis", {"vinv": "eye"}, "gauss"),
 ]
-SPARSE_METRICS = ["euclidean", "manhattan", "chebyshev", "cosine", "hamming", "jaccard", "dice", "canberra", "braycurtis",
+SPARSE_METRICS = ["euclidean", "l2", "sqeuclidean", "l1", "taxicab", "linf", "manhattan", "chebyshev", "cosine", "hamming", "jaccard", "dice", "canberra", "braycurtis",
                   "hellinger", "correlation", "matching", "kulsinski", "rogerstanimoto", "russellrao", "sokalsneath"]
 
 
@@ -279,7 +279,7 @@ def api_readout(ctx, nbuilds):
     combos.append(("bit_hamming", {}, "bits", False))
     rng.shuffle(combos)
     # corpus of past minimal disagreements: always first, fixed sizes
-    corpus = [("cosine", {}, "zerorows", True, 6, 4, 10), ("hellinger", {}, "positive", True, 8, 5, 15), ("dot", {}, "gauss", False, 5, 3, 8),
+    corpus = [("l2", {}, "ints", True, 30, 5, 5), ("cosine", {}, "zerorows", True, 6, 4, 10), ("hellinger", {}, "positive", True, 8, 5, 15), ("dot", {}, "gauss", False, 5, 3, 8),
               ("jaccard", {}, "binary", True, 6, 5, 10), ("correlation", {}, "zerorows", True, 40, 4, 3), ("cosine", {}, "zerorows", False, 7, 3, 10)]
     todo = [c for c in corpus] + [(m, kw_, kd, sp, None, None, None) for (m, kw_, kd, sp) in combos[:nbuilds]]
     for (metric, kwds, kind, sparse, n_fix, dim_fix, k_fix) in todo:
